@@ -44,7 +44,7 @@ from ZODB.serialize import get_refs, referencesf  # noqa: E402
 
 import c14_classes  # noqa: E402
 from c14_classes import (Gone, GoneNA, Node, NodeInit, NodeNA, NodeNAEx, NodeNASub, NodeRes, NodeSlots,  # noqa: E402
-                         NodeTupleState, Plain, PlainCopyreg, PlainGone, PlainReduce, PlainSlots)
+                         NodeTupleState, Plain, PlainCopyreg, PlainGone, PlainGoneFalsy, PlainReduce, PlainSlots)
 from c14_pkg.sub.mod import Deep  # noqa: E402
 
 Z64 = b'\0' * 8
@@ -60,6 +60,7 @@ CLSID = {('persistent.mapping', 'PersistentMapping'): 1, ('persistent.list', 'Pe
          ('c14_classes', 'NodeTupleState'): 9, ('c14_classes', 'NodeSlots'): 10, ('c14_classes', 'NodeNAEx'): 11,
          ('c14_classes', 'NodeRes'): 12, ('c14_pkg.sub.mod', 'Deep'): 13}
 GONE_IDS = [6, 7]
+FALSY = [{}, [], 0, '', (), False]
 MEMO = 'a1'                               # a plain container met a second time (pickle memo)
 GHOST = 'a0'
 
@@ -81,6 +82,18 @@ def tr_value(v, leaf, memo):
     """value -> prefix token list; `leaf(obj)` gives the tokens for a persistent leaf"""
     if isinstance(v, (Persistent, WeakRef, Ref)):
         return leaf(v)
+    if type(v).__name__ == 'PlainGoneFalsy':
+        # its (falsy) state, and whether __setstate__ has been given it: always, except for the instances the
+        # program itself made; the placeholder of the missing class holds the state it was given
+        if id(v) in memo:
+            return [MEMO]
+        memo[id(v)] = v
+        d = v.__dict__
+        if isinstance(v, ZODB.broken.Broken):
+            st, got = d.get('__Broken_state__', '<no state>'), '__Broken_state__' in d
+        else:
+            st, got = d.get('st', '<no state>'), bool(d.get('got') or d.get('made'))
+        return ['n10:1', atom_code('falsy:%r:%s' % (st, got))]
     if type(v).__name__ == 'PlainGone' or isinstance(v, ZODB.broken.Broken):
         # a plain (non-persistent) instance pickled by value — the real class, or its placeholder
         if id(v) in memo:
@@ -575,6 +588,8 @@ class Session:
             o = PlainGone('p')
             o.kids = [self.build(x, shared) for x in spec[1]]
             return o
+        if k == 'pf':
+            return PlainGoneFalsy(type(FALSY[spec[1] % 6])(FALSY[spec[1] % 6]))
         if k == 'pl':
             o = Plain()
             o.kids = [self.build(x, shared) for x in spec[1]]
@@ -1082,6 +1097,8 @@ class Session:
             key = '%d:%s' % (k[0], k[1].hex())
             try:
                 obj = conn_of(k[0]).get(k[1])
+                if not isinstance(obj, Persistent):
+                    raise TypeError('get() returned a %s that is not persistent' % type(obj).__name__)
                 if registry.setdefault(k, obj) is not obj:
                     dup[0] += 1
                 obj._p_activate()
@@ -1114,7 +1131,10 @@ class Session:
                     return ['o%d:%s' % (dbidx(x._p_jar.db().database_name), x._p_oid.hex())]
                 self.args_seen[k] = tr_value(c14_classes.NEW_ARGS[obj], aleaf, {})
         for k, obj in registry.items():
-            if conn_of(k[0]).get(k[1]) is not obj or obj._p_oid != k[1]:
+            try:
+                if conn_of(k[0]).get(k[1]) is not obj or getattr(obj, '_p_oid', None) != k[1]:
+                    dup[0] += 1
+            except Exception:
                 dup[0] += 1
         return dup[0], out
 
@@ -1160,7 +1180,7 @@ class Session:
                                            td, w.oid.hex(), d, oid.hex(),
                                            None if got is None else '%d:%s' % (got[0], got[1].hex()),
                                            None if want is None else '%d:%s' % (want[0], want[1].hex())))
-            except (POSKeyError, KeyError):
+            except Exception:
                 pass          # reported by the walk
             finally:
                 tm.abort()
@@ -1208,7 +1228,7 @@ class Session:
                     return ['*']
                 tr_value(o.__getstate__(), leaf, {})
                 self.count('route-prepass')
-            except (POSKeyError, KeyError):
+            except Exception:
                 pass
             finally:
                 tm.abort()
@@ -2045,7 +2065,8 @@ def gen_value(rng, names, depth, weak_p):
         if q < 0.5:
             kids.append(ref())
         elif q < 0.75:
-            kids.append(['a', rng.choice([0, 1, 7, 'x', 'text', None, 2.5])] if rng.random() < 0.98
+            kids.append(['a', rng.choice([0, 1, 7, 'x', 'text', None, 2.5])] if rng.random() < 0.95
+                        else ['pf', rng.randrange(6)] if rng.random() < 0.6
                         else ['big', rng.choice([70000, 140000])])
         else:
             kids.append(gen_value(rng, names, depth - 1, weak_p))
